@@ -180,7 +180,11 @@ pub fn step_poll(c: &UCfg) {
     vassert!(f.size_hint() == (pre.rem, Some(pre.rem)), "C17:size_hint differs from the number of held futures");
 
     let mut cx = Context::from_waker(&w);
+    let a0 = gh::allocs();
+    gh::alloc_track(true);
     let r = Pin::new(&mut f).poll_next(&mut cx);
+    gh::alloc_track(false);
+    vassert!(gh::allocs() == a0, "C18:FuturesUnordered allocated during poll_next");
 
     let woken_t = gh.task_wakes[t] > wakes0[t];
     let (post, n2, rem2, cursor2) = post_groups(&mut f, c, &pre, t);
@@ -328,7 +332,11 @@ pub fn step_push(c: &UCfg) {
     let id = gh::NCH - 1;
     let wakes0 = gh.task_wakes;
     let cap_before = f.capacity();
+    let a0 = gh::allocs();
+    gh::alloc_track(true);
     f.push(Fut::new(id as u8));
+    gh::alloc_track(false);
+    let da = gh::allocs() - a0;
     let (post, n2, rem2, cursor2) = post_groups(&mut f, c, &pre, 0);
     let last = c.n - 1;
     let full = pre.g[last].filled == c.caps[last];
@@ -339,6 +347,8 @@ pub fn step_push(c: &UCfg) {
     vassert!(cursor2 == pre.cursor, "C13:push moved the group cursor");
     if full {
         vassert!(n2 == pre.n + 1, "C18:no group appended although the last group is full");
+        // slots, waker list, (amortised) growth of the group list
+        vassert!(da <= 3, "C18:more than three allocations for a new group");
         let (groups, _, _) = f.verif_parts();
         vassert!(groups[n2 - 1].capacity() == 2 * c.caps[last], "C18:new group does not double the capacity");
         vassert!(groups[n2 - 1].len() == 1, "C02:pushed future not held by the new group");
@@ -348,6 +358,7 @@ pub fn step_push(c: &UCfg) {
         vcover!(true, "cover:push_new_group");
     } else {
         vassert!(n2 == pre.n, "C18:group appended although the last group has room");
+        vassert!(da == 0, "C18:FuturesUnordered allocated for a push although the last group has room");
         gh.slot_of[id] = pre.g[last].free_head as u8;
         gh.group_of[id] = last as u8;
         gh.set_needs(last, pre.g[last].free_head % MAXS, true);
